@@ -135,6 +135,12 @@ class Ctx:
             os.remove(os.path.join(GEN, '.' + stem + '.aux'))
         except FileNotFoundError:
             pass
+        if r.returncode == 0:
+            # the generated case file is kept only when Coq rejected it (for the post-mortem); a replay writes it again
+            try:
+                os.remove(path)
+            except FileNotFoundError:
+                pass
         return r.returncode == 0, r.stdout + r.stderr
 
     def coq_codes(self, stem, header, case_type, case_terms, checker, shard=300, jobs=12, timeout=900):
